@@ -30,6 +30,7 @@ import (
 	"github.com/twpayne/go-geom/encoding/igc"
 	"github.com/twpayne/go-geom/encoding/kml"
 	"github.com/twpayne/go-geom/encoding/wkb"
+	"github.com/twpayne/go-geom/encoding/wkbcommon"
 	"github.com/twpayne/go-geom/encoding/wkbhex"
 	"github.com/twpayne/go-geom/encoding/wkt"
 	"github.com/twpayne/go-geom/transform"
@@ -84,6 +85,13 @@ func snapAny(v any) string {
 		return x.String()[:1]
 	case []int:
 		return sxInts(x)
+	case c17Opts:
+		// what each option of the whole array (the window and what follows it) does to a probe
+		out := fmt.Sprintf("(opts %d", len(x))
+		for _, o := range x[:cap(x)] {
+			out += fmt.Sprintf(" %d", int(o(wkbcommon.WKBParams{EmptyPointHandling: 255}).EmptyPointHandling))
+		}
+		return out + ")"
 	}
 	return fmt.Sprintf("(?%T)", v)
 }
@@ -94,6 +102,9 @@ func obsErr(s string, err error) string {
 	}
 	return s
 }
+
+// c17Opts: an option list that is a window of a longer array.
+type c17Opts []wkbcommon.WKBOption
 
 // ---- cases ----
 
@@ -540,6 +551,34 @@ func init() {
 		err2 := p.Scan(a[0].([]byte))
 		s, err3 := wkbhex.Decode(fmt.Sprintf("%x", a[0].([]byte)))
 		return snapGeom(g) + obsErr(snapGeom(p.T), err2) + obsErr(snapGeom(s), err3)
+	})
+	// options handed over as a window of a longer option array the caller goes on using
+	ownCase("encoding/wkb.Read", func(r *Rng) []any {
+		for {
+			t := r.wktTree(1, xyzmLayouts[r.Intn(4)])
+			g := t.build()
+			if !noEmptyPoint(g) {
+				continue
+			}
+			b, err := wkb.Marshal(g, wkb.NDR)
+			if err != nil {
+				continue
+			}
+			arr := []wkbcommon.WKBOption{
+				wkbcommon.WKBOptionEmptyPointHandling(wkbcommon.EmptyPointHandlingNaN),
+				wkbcommon.WKBOptionEmptyPointHandling(wkbcommon.EmptyPointHandlingError),
+				wkbcommon.WKBOptionEmptyPointHandling(wkbcommon.EmptyPointHandlingNaN),
+			}
+			return []any{b, c17Opts(arr[:1+r.Intn(2)])}
+		}
+	}, func(a []any) string {
+		opts := []wkbcommon.WKBOption(a[1].(c17Opts))
+		g, err := wkb.Read(bytes.NewReader(a[0].([]byte)), opts...)
+		if err != nil {
+			return "(err)"
+		}
+		b2, err2 := wkb.Marshal(g, wkb.XDR, opts...)
+		return snapGeom(g) + obsErr(hexOrDash(b2), err2)
 	})
 	ownCase("encoding/ewkb.Unmarshal", encGen(func(g geom.T) ([]byte, bool) {
 		b, err := ewkb.Marshal(g, ewkb.XDR)
